@@ -1245,6 +1245,12 @@ func (ndb *nodeDB) traverseOrphansWithRootkeyCache(cache *rootkeyCache, prevVers
 				curIter.Next(false)
 			}
 		}
+		// a node of the current tree that could not be read ends its iteration early:
+		// without the rest of it the remaining nodes of the previous tree would all
+		// look like orphans
+		if err := curIter.Error(); err != nil {
+			return err
+		}
 		pNode := prevIter.GetNode()
 
 		if orgNode != nil && bytes.Equal(pNode.hash, orgNode.hash) {
